@@ -41,9 +41,50 @@ def _names_of(node):
     return []
 
 
-def load_defs(relpath, names, namespace, encoded=None, transform=None, src=None):
+_STDLIB_OK = {'functools', 'itertools', 'math', 'operator', 'collections', 'numbers', 'copy', 'warnings', 'abc', 'enum', 'fractions', 'bisect', 'heapq'}
+
+
+def _import_binds(node):
+    """names bound by a top-level import of an allow-listed standard-library module (never numpy/scipy/pyiga: those are facades)"""
+    out = []
+    if isinstance(node, ast.Import):
+        for a in node.names:
+            if a.name.split('.')[0] in _STDLIB_OK: out.append(a.asname or a.name.split('.')[0])
+            else: return []
+    elif isinstance(node, ast.ImportFrom):
+        if node.level == 0 and node.module and node.module.split('.')[0] in _STDLIB_OK:
+            out = [a.asname or a.name for a in node.names]
+    return out
+
+
+def _closure(tree, want, namespace):
+    """names of further top-level bindings of the same file that the wanted definitions refer to (transitively) and that the caller's
+    namespace does not provide: a change that moves part of a function into a new module-level helper, constant or stdlib import must
+    still be encoded as a whole instead of dying with a NameError."""
+    import builtins
+    binds = {}
+    for node in tree.body:
+        for n in _names_of(node) + _import_binds(node):
+            binds.setdefault(n, node)
+    have = set(want)
+    todo = [binds[n] for n in want if n in binds]
+    seen = set(id(n) for n in todo)
+    while todo:
+        node = todo.pop()
+        for sub in ast.walk(node):
+            if isinstance(sub, ast.Name) and sub.id not in have and sub.id not in namespace and not hasattr(builtins, sub.id) and sub.id in binds:
+                have.add(sub.id)
+                nd = binds[sub.id]
+                if id(nd) not in seen:
+                    seen.add(id(nd)); todo.append(nd)
+    return have - set(want)
+
+
+def load_defs(relpath, names, namespace, encoded=None, transform=None, src=None, closure=True):
     """exec the top-level definitions `names` of /repo/<relpath> in `namespace`.
-    `transform(src)->src` is used only for canary mutants (in-memory edit of the text read)."""
+    `transform(src)->src` is used only for canary mutants (in-memory edit of the text read).
+    closure: also take the same file's top-level helpers / constants / standard-library imports these definitions refer to and the
+    namespace does not bind (see _closure)."""
     path = os.path.join(REPO, relpath)
     if src is None:
         src = read(relpath)
@@ -52,10 +93,17 @@ def load_defs(relpath, names, namespace, encoded=None, transform=None, src=None)
     tree = ast.parse(src, filename=path)
     lines = src.splitlines()
     want = set(names)
+    extra = _closure(tree, want, namespace) if closure else set()
     body = []
+    optional = set()
     found = set()
     for node in tree.body:
         ns = _names_of(node)
+        if extra and any(n in extra for n in ns + _import_binds(node)) and not any(n in want for n in ns):
+            body.append(node); optional.add(id(node))
+            if encoded is not None and ns:
+                encoded.add(path, ','.join(ns) + ' (pulled in by reference)', node.lineno, node.end_lineno, '\n'.join(lines[node.lineno - 1:node.end_lineno]))
+            continue
         if any(n in want for n in ns):
             body.append(node)
             found.update(n for n in ns if n in want)
@@ -66,9 +114,18 @@ def load_defs(relpath, names, namespace, encoded=None, transform=None, src=None)
     missing = want - found
     if missing:
         raise LookupError('definitions not found in %s: %s' % (relpath, sorted(missing)))
-    mod = ast.Module(body=body, type_ignores=[])
-    code = compile(mod, path, 'exec')
-    exec(code, namespace)
+    if not optional:
+        exec(compile(ast.Module(body=body, type_ignores=[]), path, 'exec'), namespace)
+        return namespace
+    # pulled-in helpers are executed one by one in file order; one that cannot be built in this namespace (it needs a module the
+    # caller did not provide) is left unbound, exactly as it was before the closure existed
+    for node in body:
+        code = compile(ast.Module(body=[node], type_ignores=[]), path, 'exec')
+        if id(node) in optional:
+            try: exec(code, namespace)
+            except Exception: pass
+        else:
+            exec(code, namespace)
     return namespace
 
 
